@@ -61,7 +61,7 @@ func init() {
 			if tier == "thorough" {
 				return 12000
 			}
-			return 1200
+			return 3000
 		},
 		Floor: func(string) int { return 100 },
 		Run:   runC07,
